@@ -86,6 +86,16 @@ def rule_r2(chk, facts, P):
             if f.qname in LOOKUP_ONLY:
                 if l[0] == 'T':
                     chk.exception('C01-R2', f.qname, LOOKUP_ONLY[f.qname])
+                    # supporting check: the early-pass FORWARD lookup must find the declared names, i.e. it
+                    # searches with the same (case-folded) spelling under which CodePPSyms stored them
+                    from . import c13
+                    for b2, i2, l2, n2 in f.calls('FindNode_FSpec'):
+                        okf, wf = c13.folded(P, f, b2, i2, nocast(n2[2][0]))
+                        chk.ob('C01-R2', '%s:forward-list-lookup' % f.qname, okf, f.loc(l2),
+                               'FORWARD list searched with the folded name' if okf else
+                               'the FORWARD list is searched before the name is upper-cased: a forward-declared local '
+                               'symbol written in lower case is not recognised in the first pass, binds to an outer '
+                               'symbol of the same name and no further pass is requested')
                 continue
             n += 1
             ln = f.blocks[s]['term'][1]
